@@ -10,6 +10,7 @@ from __future__ import annotations
 import numpy as np
 
 from .. import exprcase as X
+from .. import harness as H
 from ..harness import close
 from ..recipes import ast as A
 from ..recipes import build as B
@@ -51,6 +52,7 @@ def run_case(case, rec):
     D = R.Decls(decls)
     fam = case["family"]
     B.SHARE[0] = bool(case.get("share"))
+    H.SCALE_INV[0] = float(case.get("inv_scale", 1.0))
     if B.SHARE[0]:
         fam = "shared-subexpressions"
     rec.case({"d": decls, "n": node, "V": V, "s": B.SHARE[0]}, nontrivial=A.n_ops(node) >= 2)
@@ -88,6 +90,15 @@ def run_case(case, rec):
                     rec.cmp(1, f"{fam}|{'occurring' if nm in used else 'non-occurring'}")
         finally:
             AD._RECURSION_THRESHOLD = old
+    # the symbolic Jacobian row of the same expression (per-node jacobian_row rules where a node has one): also expressions
+    # "returned by symbolic differentiation"
+    try:
+        row = AD.compute_jacobian([e], Vobjs)[0]
+        for nm, gexpr in zip(V, row):
+            grads[("compute_jacobian", nm)] = gexpr
+        rec.paths["compute_jacobian-rows"] += 1
+    except Exception as ex:
+        bad("compute_jacobian", "raises:" + type(ex).__name__, None, ex=ex)
     try:
         rec.paths["gradient-cache-hits"] = AD._gradient_cached.cache_info().hits
     except Exception:
@@ -156,6 +167,9 @@ def run(ctx, rec):
             sc = X.shared_case(rng, case, form=(k // 2) % len(X.DAG_FORMS))
             if sc is not None:
                 run_case(sc, rec)
+    for case in X.special_cases(rng, ctx.mine, vrels=("superset", "superset_permuted")):
+        run_case(case, rec)
+    H.SCALE_INV[0] = 1.0
     n = 0
     while n < N_RANDOM[ctx.tier] and not rec.out_of_time():
         n += 1
